@@ -143,6 +143,8 @@ SOURCE_TIES = {
                         'users': {'C02', 'C04', 'C05', 'C07', 'C08', 'C15', 'C17'}},
     'Encoder methods': {'unit': 'SrcEnc', 'module': 'HpackVerif.Props.SrcEnc', 'audit': 'AuditSrcEnc.lean',
                         'users': {'C03', 'C19', 'C15', 'C09', 'C01'}},
+    'Huffman encoder': {'unit': 'SrcHuffEnc', 'module': 'HpackVerif.Props.SrcHuffEnc', 'audit': 'AuditSrcHuffEnc.lean',
+                        'users': {'C12', 'C03', 'C01'}},
     'header table': {'unit': 'SrcTable', 'module': 'HpackVerif.Props.SrcTable', 'audit': 'AuditSrcTable.lean',
                      'users': {'C06', 'C14', 'C10', 'C08', 'C19'}},
 }
@@ -988,7 +990,7 @@ def main():
             'trusted_base': [
                 'Lean 4 kernel (lake build); axioms used by the property theorems: ' + ', '.join(sorted({x for v in list(thms.values()) + list(shared.values()) for x in v})),
                 'tools/translate.py dumps the run-time tables/constants of the working tree into lean/HpackVerif/Generated (witnesses untrusted)',
-                'tools/py2lean.py + lean/HpackVerif/Src/Py.lean (source text of the integer codec / decode_huffman / HeaderTable / Decoder / Encoder.add -> Lean; Props.Src / SrcHuff / SrcTable / SrcDec / SrcEnc prove it equal to the model): ' + (info.get('source_tie') or {}).get('status', 'not used by this property'),
+                'tools/py2lean.py + lean/HpackVerif/Src/Py.lean (source text of the integer codec / decode_huffman / HuffmanEncoder.encode / HeaderTable / Decoder / Encoder.add -> Lean; Props.Src / SrcHuff / SrcHuffEnc / SrcTable / SrcDec / SrcEnc prove it equal to the model): ' + (info.get('source_tie') or {}).get('status', 'not used by this property'),
                 'hand-written L2 model lean/HpackVerif/Impl/* tied to the code by the correspondence streams of this run (%d operations, %d disagreements)' % (stats['ops'], len(disag)),
                 'L0 reading of RFC 7541 (lean/HpackVerif/RFC/*) and frozen Appendix A/B tables',
                 'CPython semantics of int/bytes/deque/dict as modelled (DESIGN.md 5.2)',
